@@ -177,6 +177,7 @@ def menu(M, seen):
         add({"op": "modify", "name": names[0], "form": "vector"})
         add({"op": "modify", "name": mname, "form": "callable"})
         add({"op": "modify", "name": mname, "form": "wrong"})
+        add({"op": "modify", "name": mname, "form": "wrongcol"})
         if n >= 1:
             add({"op": "modify", "name": mname, "form": "scalar"})
             add({"op": "modify", "name": mname, "form": "scalar0"})
@@ -218,6 +219,7 @@ def menu(M, seen):
             add({"op": "setitem", "name": nm, "form": "len1col"})
         if k >= 1:
             add({"op": "setitem", "name": nm, "form": "wrong"})
+            add({"op": "setitem", "name": nm, "form": "wrongcol"})
             if n >= 1:
                 add({"op": "setitem", "name": nm, "form": "empty"})
     if k >= 1:
@@ -347,6 +349,11 @@ def value_of(form, n, M):
     if form == "wrong":
         m = n + 2
         return list(range(m)), list(range(m))
+    if form == "wrongcol":
+        # a column of the wrong length that IS a DataFrameColumn: taken out of another (longer) frame, after arithmetic
+        m = n + 2
+        other = di.DataFrame(q=np.arange(m, dtype="int64"), r=np.arange(m, dtype="int64"))
+        return other.q + other.r, [2 * i for i in range(m)]
     if form == "empty":
         return [], []   # no elements at all: not a scalar, not length one, not nrow (for nrow >= 1)
     raise ValueError(form)
